@@ -26,9 +26,10 @@ import (
 // ---- C17: the watched config file (DESIGN §4 C17, §2.5) ----
 
 type FileSpec struct {
-	Layout string `json:"layout"` // plain | k8s
-	PollMS int    `json:"poll_ms,omitempty"`
-	Reload bool   `json:"reload,omitempty"`
+	Layout     string `json:"layout"` // plain | k8s
+	PollMS     int    `json:"poll_ms,omitempty"`
+	Reload     bool   `json:"reload,omitempty"`
+	RaceConfig bool   `json:"race_config,omitempty"` // Config runs as a task, raced by the writer
 }
 
 type fileState struct {
@@ -156,6 +157,7 @@ func genFile(seed uint64, faulty bool) *Scenario {
 		fs.PollMS = g.in(1, 10) * 60000
 	}
 	fs.Reload = g.pct(20)
+	fs.RaceConfig = g.pct(20)
 	sc.File = fs
 	pInvalid := 0
 	if faulty {
@@ -239,6 +241,14 @@ func genFile(seed uint64, faulty bool) *Scenario {
 		}
 		w.Ops = append(w.Ops, Op{K: "rewrite", Part: g.filePart(0), N: g.in(0, 1)})
 	}
+	if fs.Layout == "plain" && g.pct(25) {
+		// end with: new content, then - right behind the watcher's read of it -
+		// delete and recreate the very same bytes
+		w.Ops = append(w.Ops, Op{K: "sleep", D: int64(g.in(2, 30)) * 60e9},
+			Op{K: []string{"rename", "rewrite"}[g.r.IntN(2)], Part: g.filePart(0), N: 0},
+			Op{K: "await-read"},
+			Op{K: "delete-create", Str: "same", N: g.in(0, 1)})
+	}
 	sc.Clients = append(sc.Clients, w)
 	if g.pct(40) {
 		sc.Clients = append(sc.Clients, ClientSpec{Name: "reader0", Kind: "reader", Ops: []Op{{K: "vv"}, {K: "sleep", D: 5e8}, {K: "events"}, {K: "vv"}}})
@@ -314,6 +324,9 @@ func (g *gen) writerOp(fs *FileSpec, pInvalid int) Op {
 		op := content()
 		op.K = "delete-create"
 		op.N = g.in(0, 1) // 1: a scheduling point between the unlink and the create
+		if g.pct(25) {
+			op.Part, op.Str = nil, "same"
+		}
 		return op
 	case 8:
 		return Op{K: "touch"}
@@ -480,7 +493,17 @@ func (r *Run) writer(c *ClientSpec) {
 			changed()
 			simrt.Yield("w.renamed")
 		case "delete-create":
-			content := r.contentFor(op, st)
+			var content []byte
+			if op.Str == "same" {
+				b, err := os.ReadFile(f.path)
+				if err != nil {
+					continue
+				}
+				content = b
+				r.probe("delete-recreate-identical-content")
+			} else {
+				content = r.contentFor(op, st)
+			}
 			os.Remove(f.path)
 			changed()
 			if op.N == 1 {
